@@ -21,7 +21,7 @@ func HopMAC(key []byte, segID uint16, ts uint32, exp uint8, in, eg uint16) [6]by
 	m[9] = exp
 	binary.BigEndian.PutUint16(m[10:], in)
 	binary.BigEndian.PutUint16(m[12:], eg)
-	c.Encrypt(l[:], l[:]) // L = AES(K, 0^128)
+	c.Encrypt(l[:], l[:])     // L = AES(K, 0^128)
 	for i := 0; i < 16; i++ { // K1 = L << 1 (xor Rb if msb(L))
 		k1[i] = l[i] << 1
 		if i < 15 {
